@@ -26,7 +26,7 @@ OPTS = {"quick": {"max_paths": 48, "timeout_ms": 10000, "case_timeout_s": 900, "
         "thorough": {"max_paths": 96, "timeout_ms": 30000, "case_timeout_s": 1800, "exact_close": True}}
 
 # further fault kinds with their own case lists: outside (composite), foreign (envelope), destroyed
-FAULTS = ["kraus-incomplete", "kraus-wrongsize", "povm-wrongsize", "customop-wrongsize", "wrong-kind", "annihilate-vacuum"]
+FAULTS = ["kraus-incomplete", "kraus-wrongsize", "povm-wrongsize", "customop-wrongsize", "wrong-kind", "wrong-kind-sized", "annihilate-vacuum"]
 
 
 def cases(tier):
@@ -39,7 +39,7 @@ def cases(tier):
                         continue
                     if fault == "customop-wrongsize" and kind == "fock":
                         continue  # a larger custom Fock operator is documented to resize the space
-                    if fault == "wrong-kind" and kind == "custom":
+                    if fault in ("wrong-kind", "wrong-kind-sized") and kind == "custom":
                         continue
                     if fault in ("kraus-incomplete",) and tier == "quick" and lid.endswith("-M") and not lid.startswith("E1"):
                         continue
@@ -129,6 +129,17 @@ def _request(B, W, case):
         call("apply_operation", Operation(T.Custom, operator=B.operator("O", d + 1)))
     elif fault == "wrong-kind":
         op = Operation(FockOperationType.Creation) if isinstance(t, h.Polarization) else Operation(PolarizationOperationType.X)
+        call("apply_operation", op)
+    elif fault == "wrong-kind-sized":
+        # an operation of the wrong kind whose operator happens to have the right SIZE and already knows its dimensions:
+        # a 2x2 Fock Custom operator aimed at a polarization; a polarization gate (used validly before, on a scratch
+        # polarization outside the world) aimed at a Fock space of dimension 2
+        if isinstance(t, h.Polarization):
+            op = Operation(FockOperationType.Custom, operator=B.operator("O", 2))
+        else:
+            op = Operation(PolarizationOperationType.X)
+            scratch = h.Polarization()
+            scratch.apply_operation(op)
         call("apply_operation", op)
     elif fault == "annihilate-vacuum":
         call("apply_operation", Operation(FockOperationType.Annihilation))
